@@ -138,3 +138,23 @@ package ipfsproxy
 //@   property C12
 //@   at_call http.NewRequest assert [only-the-extraction-path] url == uf("concat2", "string", any(proxy.nodeAddr), any(proxy.config.ExtractHeadersPath))
 //@   modifies *
+
+// ---- C15: the proxy section's saved form: every setting is written from the field of the same name ----
+//@ func (cfg *Config) toJSONConfig
+//@   property C15
+//@   requires cfg != nil
+//@   loop 1 (range cfg.ListenAddr)
+//@     invariant len(addresses) == idx1 && forall j int :: 0 <= j && j < idx1 ==> addresses[j] == cfg.ListenAddr[j].String()
+//@   ensures [listen-multiaddress] err == nil ==> jcfg != nil && len(jcfg.ListenMultiaddress) == len(cfg.ListenAddr) && forall j int :: 0 <= j && j < len(cfg.ListenAddr) ==> jcfg.ListenMultiaddress[j] == cfg.ListenAddr[j].String()
+//@   ensures [node-multiaddress] err == nil ==> jcfg.NodeMultiaddress == cfg.NodeAddr.String()
+//@   ensures [read-timeout] err == nil ==> jcfg.ReadTimeout == cfg.ReadTimeout.String()
+//@   ensures [read-header-timeout] err == nil ==> jcfg.ReadHeaderTimeout == cfg.ReadHeaderTimeout.String()
+//@   ensures [write-timeout] err == nil ==> jcfg.WriteTimeout == cfg.WriteTimeout.String()
+//@   ensures [idle-timeout] err == nil ==> jcfg.IdleTimeout == cfg.IdleTimeout.String()
+//@   ensures [max-header-bytes] err == nil ==> jcfg.MaxHeaderBytes == cfg.MaxHeaderBytes
+//@   ensures [node-https] err == nil ==> jcfg.NodeHTTPS == cfg.NodeHTTPS
+//@   ensures [log-file] err == nil ==> jcfg.LogFile == cfg.LogFile
+//@   ensures [extract-headers-extra] err == nil ==> jcfg.ExtractHeadersExtra == cfg.ExtractHeadersExtra
+//@   ensures [extract-headers-path] err == nil ==> jcfg.ExtractHeadersPath == ite(cfg.ExtractHeadersPath != DefaultExtractHeadersPath, cfg.ExtractHeadersPath, "")
+//@   ensures [extract-headers-ttl] err == nil ==> jcfg.ExtractHeadersTTL == ite(cfg.ExtractHeadersTTL != DefaultExtractHeadersTTL, cfg.ExtractHeadersTTL.String(), "")
+//@   modifies nothing
